@@ -65,6 +65,9 @@ type endpointPickStrategy struct {
 	flowControlName string
 	upstreams       []string
 	enableLog       bool
+	// cursorScope separates the round-robin cursors of internal picks (PickOne) from
+	// the cursors of the dispatch policies, which must only be advanced by dispatched requests
+	cursorScope string
 }
 
 func (s *endpointPickStrategy) Pop() (*EndpointInfo, error) {
@@ -92,7 +95,7 @@ func (s *endpointPickStrategy) Pop() (*EndpointInfo, error) {
 	}
 
 	// TODO: apply strategy
-	key := fmt.Sprintf("%v", readyEndpoints)
+	key := s.cursorScope + fmt.Sprintf("%v", readyEndpoints)
 	var i uint64
 	lb, _ := s.cluster.loadbalancer.LoadOrStore(key, &i)
 	index := atomic.AddUint64(lb.(*uint64), 1)
@@ -495,9 +498,13 @@ func (c *ClusterInfo) MatchAttributes(requestAttributes authorizer.Attributes) (
 }
 
 func (c *ClusterInfo) PickOne() (*EndpointInfo, error) {
+	// PickOne is called for every token review and subject access review of a request
+	// (Manager.ClientFor): it keeps its own round-robin and must not consume the cursor
+	// values of the dispatch policies, or their traffic is no longer shared evenly
 	s := &endpointPickStrategy{
-		cluster:   c,
-		upstreams: c.AllEndpoints(),
+		cluster:     c,
+		upstreams:   c.AllEndpoints(),
+		cursorScope: "pickone:",
 	}
 	return s.Pop()
 }
